@@ -143,7 +143,32 @@ fn do_drop(log: &ULog, table: &Table, op: &Value) {
         return;
     }
     log.log(UK::DropBegin { obj: id });
-    drop(o);
+    if jb(op, "in_task", false) {
+        // environment fault `tokio_budget_exhausted`: the drop happens inside a tokio task
+        // whose cooperative budget has just been used up (anything that polls a coop-aware
+        // resource now sees Pending once)
+        thread_local! {
+            static RT: tokio::runtime::Runtime = tokio::runtime::Builder::new_current_thread().build().expect("tokio rt");
+        }
+        RT.with(|rt| {
+            rt.block_on(async move {
+                for _ in 0..128 {
+                    tokio::task::consume_budget().await;
+                }
+                drop(o);
+            })
+        });
+        log.log(UK::DropEnd { obj: id });
+        return;
+    }
+    match o {
+        // the documented alternative way of letting the owner go: Instrumented::emit()
+        Obj::Owner(owner) if js(op, "via", "") == "emit" => {
+            let v = metrique::instrument::Instrumented::from_parts(7u8, owner).emit();
+            assert_eq!(v, 7);
+        }
+        o => drop(o),
+    }
     log.log(UK::DropEnd { obj: id });
 }
 
@@ -555,6 +580,11 @@ pub fn gen_uow(rng: &mut Rng, slots: bool) -> Value {
         if !owner_objs.contains(&id) && rng.chance(0.07) {
             op["forget"] = json!(true);
         }
+        if id == 0 && rng.chance(0.3) {
+            op["via"] = json!("emit");
+        } else if rng.chance(0.1) {
+            op["in_task"] = json!(true);
+        }
         let mut who = rng.below(nd + 1);
         let is_slot1 = is_slot && id % 2 == 0;
         if is_slot1 && slots && style != 0 && op.get("forget").is_none() && rng.chance(0.35) {
@@ -598,6 +628,8 @@ fn uow_report(plan: &Value, check: fn(&[UEv]) -> Option<Violation>) -> Report {
     absorb_outcome(&mut r, out);
     let m = model(&h);
     r.fault("guard_leaked", m.forgotten.len() as u64);
+    let in_task = ja(plan, "main_ops").iter().chain(ja(plan, "droppers").iter().flat_map(|d| d.as_array().map(|a| a.iter()).into_iter().flatten())).filter(|o| jb(o, "in_task", false)).count() as u64;
+    r.fault("tokio_budget_exhausted", in_task);
     if m.kinds.values().any(|k| *k == "force") {
         r.probe("force_guard_used", 1);
     }
